@@ -48,6 +48,7 @@ fn step(dir: u8) -> (i32, i32) {
 //@ desc: Line::heading never reaches unreachable!() for ANY four f32 endpoints (NaN and infinities included) and ANY value returned by atan (stub any_atan over-approximates libm)
 //@ encodes: Line::heading, Line::line_angle, Line::full_angle, Line::octant, Line::slope, Line::angle_deg
 #[kani::proof]
+#[kani::stub(std::io::_print, crate::kstub::noop_print)]
 #[kani::stub(f32::atan, crate::kstub::any_atan)]
 fn o1_3_heading_total() {
     let l = Line::new_noswap(
@@ -63,6 +64,7 @@ fn o1_3_heading_total() {
 //@ desc: Line::merge_circle and Line::is_touching_circle never panic (panic!("There is no endpoint ...") unreachable) for any lattice line (|coords| <= 4096 quarter units), any lattice circle centre, any f32 radius, any atan result
 //@ encodes: Line::merge_circle, Line::is_touching_circle, Line::heading, Direction::threshold_length
 #[kani::proof]
+#[kani::stub(std::io::_print, crate::kstub::noop_print)]
 #[kani::stub(f32::atan, crate::kstub::any_atan)]
 fn o1_4_merge_circle_total() {
     let l = Line::new_noswap(
@@ -82,6 +84,7 @@ fn o1_4_merge_circle_total() {
 //@ desc: Line::new, Line::cmp, Line::eq never reach util::ord's unreachable!() for any finite f32 coordinates (all finite values, no lattice)
 //@ encodes: Line::new, Line::sort_reorder_end_points, Line::cmp, Point::cmp, util::ord
 #[kani::proof]
+#[kani::stub(std::io::_print, crate::kstub::noop_print)]
 fn o1_1_line_new_total() {
     let a: f32 = kani::any();
     let b: f32 = kani::any();
@@ -156,6 +159,7 @@ fn long_run(dir: u8, max_k: i32, max_off_x: i32, max_off_y: i32) {
 //@ desc: horizontal family (- ~ _ = rails): run of k cells (k symbolic 1..60) at any lattice origin within 64x64 cells merges with the next cell's segment into the exact hull, either call order; dashed iff a part is dashed
 //@ encodes: Line::merge, Line::can_merge, Line::is_touching, util::is_collinear, parry Segment::contains_point
 #[kani::proof]
+#[kani::stub(std::io::_print, crate::kstub::noop_print)]
 fn o9_1_run_horizontal() {
     long_run(0, 60, 64, 64);
 }
@@ -164,6 +168,7 @@ fn o9_1_run_horizontal() {
 //@ desc: vertical family (| : !): run of k cells (1..60) at any lattice origin within 64x64 cells merges with the next cell's segment into the exact hull
 //@ encodes: Line::merge, Line::can_merge, Line::is_touching, util::is_collinear, parry Segment::contains_point
 #[kani::proof]
+#[kani::stub(std::io::_print, crate::kstub::noop_print)]
 fn o9_1_run_vertical() {
     long_run(1, 60, 64, 64);
 }
@@ -172,6 +177,7 @@ fn o9_1_run_vertical() {
 //@ desc: slash family (/): run of k cells (1..60) at any lattice origin within 64x64 cells merges with the next cell's segment into the exact hull
 //@ encodes: Line::merge, Line::can_merge, Line::is_touching, util::is_collinear, parry Segment::contains_point
 #[kani::proof]
+#[kani::stub(std::io::_print, crate::kstub::noop_print)]
 fn o9_1_run_slash() {
     long_run(2, 60, 64, 64);
 }
@@ -180,6 +186,7 @@ fn o9_1_run_slash() {
 //@ desc: backslash family (\): run of k cells (1..60) at any lattice origin within 64x64 cells merges with the next cell's segment into the exact hull
 //@ encodes: Line::merge, Line::can_merge, Line::is_touching, util::is_collinear, parry Segment::contains_point
 #[kani::proof]
+#[kani::stub(std::io::_print, crate::kstub::noop_print)]
 fn o9_1_run_backslash() {
     long_run(3, 60, 64, 64);
 }
@@ -188,6 +195,7 @@ fn o9_1_run_backslash() {
 //@ desc: horizontal family, k symbolic 1..400, origin within 400x200 cells
 //@ encodes: Line::merge, Line::can_merge, util::is_collinear
 #[kani::proof]
+#[kani::stub(std::io::_print, crate::kstub::noop_print)]
 fn o9_1_run_horizontal_400() {
     long_run(0, 400, 400, 200);
 }
@@ -196,6 +204,7 @@ fn o9_1_run_horizontal_400() {
 //@ desc: vertical family, k symbolic 1..400, origin within 400x200 cells
 //@ encodes: Line::merge, Line::can_merge, util::is_collinear
 #[kani::proof]
+#[kani::stub(std::io::_print, crate::kstub::noop_print)]
 fn o9_1_run_vertical_400() {
     long_run(1, 400, 400, 200);
 }
@@ -204,6 +213,7 @@ fn o9_1_run_vertical_400() {
 //@ desc: slash family, k symbolic 1..400, origin within 400x200 cells
 //@ encodes: Line::merge, Line::can_merge, util::is_collinear
 #[kani::proof]
+#[kani::stub(std::io::_print, crate::kstub::noop_print)]
 fn o9_1_run_slash_400() {
     long_run(2, 400, 400, 200);
 }
@@ -212,6 +222,7 @@ fn o9_1_run_slash_400() {
 //@ desc: backslash family, k symbolic 1..400, origin within 400x200 cells
 //@ encodes: Line::merge, Line::can_merge, util::is_collinear
 #[kani::proof]
+#[kani::stub(std::io::_print, crate::kstub::noop_print)]
 fn o9_1_run_backslash_400() {
     long_run(3, 400, 400, 200);
 }
@@ -256,34 +267,37 @@ fn exactness(max_len: i32, max_pos: i32, max_off_x: i32, max_off_y: i32) {
 }
 
 //@ harness: o9_2_can_merge_exact props=C09,C03 tier=quick obl=O9.2 timeout=2400 mem=14
-//@ desc: two lattice segments, each of any of the 4 direction classes, start anywhere in a 16x16 quarter-unit window, length 1..16 quarter-unit steps, window at any cell offset <= 64x64: can_merge <=> (exact cross products zero) and (segments share a point)
+//@ desc: two lattice segments, each of any of the 4 direction classes, start anywhere in an 8x8 quarter-unit window, length 1..8 quarter-unit steps, window at any cell offset <= 16x16: can_merge <=> (exact cross products zero) and (segments share a point)
 //@ encodes: Line::can_merge, Line::is_touching, Line::touching_line, util::is_collinear, parry Segment::contains_point, parry Triangle::area
 #[kani::proof]
+#[kani::stub(std::io::_print, crate::kstub::noop_print)]
 fn o9_2_can_merge_exact() {
-    exactness(16, 16, 64, 64);
+    exactness(8, 8, 16, 16);
 }
 
 //@ harness: o9_2_can_merge_exact_48 props=C09,C03 tier=thorough obl=O9.2 timeout=3400 mem=16
 //@ desc: as o9_2_can_merge_exact with window 48x48 quarter units, lengths 1..48, offsets <= 400x200 cells
 //@ encodes: Line::can_merge, Line::is_touching, util::is_collinear
 #[kani::proof]
+#[kani::stub(std::io::_print, crate::kstub::noop_print)]
 fn o9_2_can_merge_exact_48() {
     exactness(48, 48, 400, 200);
 }
 
 //@ harness: o3_3_merge_pointset props=C03,C09 tier=quick obl=O3.3 timeout=1800 mem=8
-//@ desc: two lattice lines of the same axis class (horizontal or vertical), interval ends in 0..64 quarter units + cell offset <= 64: Line::merge = Some(l) => l covers exactly the union of both intervals (which is itself an interval) and is dashed iff one part is; None => the intervals do not touch or lie on different rows/columns
+//@ desc: two lattice lines of the same axis class (horizontal or vertical), interval ends in 0..16 quarter units + cell offset <= 16: Line::merge = Some(l) => l covers exactly the union of both intervals (which is itself an interval) and is dashed iff one part is; None => the intervals do not touch or lie on different rows/columns
 //@ encodes: Line::merge, Line::can_merge
 #[kani::proof]
+#[kani::stub(std::io::_print, crate::kstub::noop_print)]
 fn o3_3_merge_pointset() {
     let vertical: bool = kani::any();
-    let off = any_in(0, 64) * 8;
-    let r1 = off + any_in(0, 64);
-    let r2 = off + any_in(0, 64);
-    let a1 = off + any_in(0, 64);
-    let b1 = a1 + any_in(1, 64);
-    let a2 = off + any_in(0, 64);
-    let b2 = a2 + any_in(1, 64);
+    let off = any_in(0, 16) * 8;
+    let r1 = off + any_in(0, 16);
+    let r2 = off + any_in(0, 16);
+    let a1 = off + any_in(0, 16);
+    let b1 = a1 + any_in(1, 16);
+    let a2 = off + any_in(0, 16);
+    let b2 = a2 + any_in(1, 16);
     let br1: bool = kani::any();
     let br2: bool = kani::any();
     let (l1, l2) = if vertical {
@@ -314,23 +328,7 @@ fn shifted(l: &Line, k: i32, n: i32) -> Line {
     l.absolute_position(Cell::new(k, n))
 }
 
-//@ harness: o6_1_line_predicates_shift props=C06 tier=quick obl=O6.1 timeout=2400 mem=14
-//@ desc: two lattice lines (any of 4 direction classes, 16x16 quarter-unit window, length <= 16) evaluated at the origin and shifted by (k <= 64, n <= 64) cells via the real absolute_position: overlaps/is_touching/can_merge/is_aabb_parallel/is_touching_aabb_perpendicular give identical answers and merge gives the shifted line
-//@ encodes: Line::absolute_position, Cell::absolute_position, Line::is_touching, Line::can_merge, Line::merge, Line::is_aabb_parallel, Line::is_touching_aabb_perpendicular
-#[kani::proof]
-fn o6_1_line_predicates_shift() {
-    line_shift(16, 16, 64, 64);
-}
-
-//@ harness: o6_1_line_predicates_shift_400 props=C06 tier=thorough obl=O6.1 timeout=3400 mem=16
-//@ desc: as o6_1_line_predicates_shift with window 32x32, shift k <= 400, n <= 200
-//@ encodes: Line::absolute_position, Line::is_touching, Line::can_merge, Line::merge
-#[kani::proof]
-fn o6_1_line_predicates_shift_400() {
-    line_shift(32, 32, 400, 200);
-}
-
-fn line_shift(max_len: i32, max_pos: i32, max_k: i32, max_n: i32) {
+fn two_lines(max_len: i32, max_pos: i32) -> (Line, Line) {
     let d1: u8 = kani::any();
     let d2: u8 = kani::any();
     kani::assume(d1 < 4 && d2 < 4);
@@ -343,30 +341,45 @@ fn line_shift(max_len: i32, max_pos: i32, max_k: i32, max_n: i32) {
     let a2x = any_in(0, max_pos);
     let a2y = base + any_in(0, max_pos);
     let t2 = any_in(1, max_len);
-    let l1 = lattice_line(a1x, a1y, a1x + t1 * s1x, a1y + t1 * s1y, kani::any());
-    let l2 = lattice_line(a2x, a2y, a2x + t2 * s2x, a2y + t2 * s2y, kani::any());
-    let k = any_in(0, max_k);
-    let n = any_in(0, max_n);
+    (
+        lattice_line(a1x, a1y, a1x + t1 * s1x, a1y + t1 * s1y, kani::any()),
+        lattice_line(a2x, a2y, a2x + t2 * s2x, a2y + t2 * s2y, kani::any()),
+    )
+}
+
+//@ harness: o6_1_touching_shift props=C06 tier=quick obl=O6.1 timeout=2400 mem=14
+//@ desc: two lattice lines (any of 4 direction classes, 8x8 quarter-unit window, length <= 8) at the origin and shifted by (k <= 400, n <= 200) cells via the real absolute_position: absolute_position adds exactly (k, 2n); is_touching and overlaps give identical answers
+//@ encodes: Line::absolute_position, Cell::absolute_position, Line::is_touching, Line::overlaps, parry Segment::contains_point
+#[kani::proof]
+#[kani::stub(std::io::_print, crate::kstub::noop_print)]
+fn o6_1_touching_shift() {
+    let (l1, l2) = two_lines(8, 8);
+    let k = any_in(0, 400);
+    let n = any_in(0, 200);
     let m1 = shifted(&l1, k, n);
     let m2 = shifted(&l2, k, n);
-    // absolute_position adds exactly (k, 2n)
     assert!(
         m1.start.x == l1.start.x + k as f32 && m1.start.y == l1.start.y + 2.0 * n as f32
             && m1.end.x == l1.end.x + k as f32 && m1.end.y == l1.end.y + 2.0 * n as f32
             && m1.is_broken == l1.is_broken,
         "O6.2 Line::absolute_position adds exactly (k, 2n)"
     );
+    kani::cover!(l1.is_touching(&l2), "a touching pair is explored");
     assert!(l1.is_touching(&l2) == m1.is_touching(&m2), "O6.1 is_touching is translation invariant");
-    assert!(l1.can_merge(&l2) == m1.can_merge(&m2), "O6.1 can_merge is translation invariant");
-    assert!(l1.is_aabb_parallel(&l2) == m1.is_aabb_parallel(&m2), "O6.1 is_aabb_parallel is translation invariant");
-    assert!(
-        l1.is_touching_aabb_perpendicular(&l2) == m1.is_touching_aabb_perpendicular(&m2),
-        "O6.1 is_touching_aabb_perpendicular is translation invariant"
-    );
-    assert!(
-        l1.overlaps(l2.start, l2.end) == m1.overlaps(m2.start, m2.end),
-        "O6.1 overlaps is translation invariant"
-    );
+    assert!(l1.overlaps(l2.start, l2.end) == m1.overlaps(m2.start, m2.end), "O6.1 overlaps is translation invariant");
+}
+
+//@ harness: o6_1_merge_shift props=C06 tier=quick obl=O6.1 timeout=2400 mem=14
+//@ desc: same two lines and shift: can_merge gives identical answers and merge commutes with the translation (same hull shifted, same dashedness)
+//@ encodes: Line::can_merge, Line::merge, util::is_collinear
+#[kani::proof]
+#[kani::stub(std::io::_print, crate::kstub::noop_print)]
+fn o6_1_merge_shift() {
+    let (l1, l2) = two_lines(8, 8);
+    let k = any_in(0, 400);
+    let n = any_in(0, 200);
+    let m1 = shifted(&l1, k, n);
+    let m2 = shifted(&l2, k, n);
     kani::cover!(l1.can_merge(&l2), "a mergeable pair is explored");
     match (l1.merge(&l2), m1.merge(&m2)) {
         (Some(a), Some(b)) => {
@@ -374,8 +387,24 @@ fn line_shift(max_len: i32, max_pos: i32, max_k: i32, max_n: i32) {
             assert!(a.start == b.start && a.end == b.end && a.is_broken == b.is_broken, "O6.1 merge commutes with translation");
         }
         (None, None) => {}
-        _ => assert!(false, "O6.1 merge is translation invariant"),
+        _ => assert!(false, "O6.1 merge / can_merge is translation invariant"),
     }
+}
+
+//@ harness: o6_1_aabb_shift props=C06,C05 tier=quick obl=O6.1 timeout=1200 mem=10
+//@ desc: same two lines and shift: is_aabb_parallel and is_aabb_perpendicular give identical answers (the exact float comparisons rectangle endorsement is built on)
+//@ encodes: Line::is_aabb_parallel, Line::is_aabb_perpendicular
+#[kani::proof]
+#[kani::stub(std::io::_print, crate::kstub::noop_print)]
+fn o6_1_aabb_shift() {
+    let (l1, l2) = two_lines(8, 8);
+    let k = any_in(0, 400);
+    let n = any_in(0, 200);
+    let m1 = shifted(&l1, k, n);
+    let m2 = shifted(&l2, k, n);
+    kani::cover!(l1.is_aabb_parallel(&l2), "an aabb-parallel pair is explored");
+    assert!(l1.is_aabb_parallel(&l2) == m1.is_aabb_parallel(&m2), "O6.1 is_aabb_parallel is translation invariant");
+    assert!(l1.is_aabb_perpendicular(&l2) == m1.is_aabb_perpendicular(&m2), "O6.1 is_aabb_perpendicular is translation invariant");
 }
 
 // ---------------------------------------------------------------------------
@@ -385,6 +414,7 @@ fn line_shift(max_len: i32, max_pos: i32, max_k: i32, max_n: i32) {
 //@ desc: axis-parallel or diagonal lattice line (length from one quarter-unit step, i.e. shorter than the merge threshold so that BOTH ends are close, up to 40 cells) whose nearer end is within half a cell of a bullet circle's centre m (cell at offset <= 64x64): merge_circle yields a MarkerLine from the far end to exactly the circle centre, marker Circle/OpenCircle/BigOpenCircle by is_filled/radius, dashedness kept; atan stubbed by atan_axis (libm value +-1e-4 for the slopes 0, +-2, +-4, +-inf that lattice lines have; any f32 otherwise)
 //@ encodes: Line::merge_circle, Line::heading, Direction::threshold_length, fragment::marker_line
 #[kani::proof]
+#[kani::stub(std::io::_print, crate::kstub::noop_print)]
 #[kani::stub(f32::atan, crate::kstub::atan_axis)]
 fn o14_4_merge_circle() {
     let dir: u8 = kani::any();
